@@ -66,6 +66,8 @@ pub struct GenOpts {
     /// chance (percent) that a range ends at or just below usize::MAX (short ranges: the known
     /// finding K1 needs more than 2^62 elements)
     pub high_range_pct: u64,
+    /// chance (percent) that the k-th `Clone::clone` of an element panics (cloned() kinds)
+    pub clone_panic_pct: u64,
 }
 
 impl GenOpts {
@@ -109,6 +111,7 @@ impl GenOpts {
             closure_panic_pct: 0,
             in_unwind_pct: 0,
             high_range_pct: 0,
+            clone_panic_pct: 0,
         }
     }
 }
@@ -180,6 +183,9 @@ pub fn opts_for(prop: &str) -> GenOpts {
             o.wrapper_nth_pct = 35;
         }
         "C03" => {
+            // a clone that panics in the middle of a chunk must not leave anything behind that the
+            // next chunk then contains (seeded change C03-r11)
+            o.clone_panic_pct = 25;
             o.high_range_pct = 10;
             o.in_unwind_pct = 4;
             // operation classes that do not concern this property directly, at a low weight:
@@ -881,6 +887,13 @@ pub fn generate_with(prop: &str, o: &GenOpts, base_seed: u64, index: u64) -> Run
     if panic.is_none() && o.consumer_panic_pct > 0 && rng.chance(o.consumer_panic_pct, 100) {
         // the caller panics after its k-th chunk element (seeded change C08-r5)
         panic = Some((PanicSite::Consumer, rng.range(0, (len.max(1) - 1).min(3)) as u32));
+    }
+    if panic.is_none()
+        && o.clone_panic_pct > 0
+        && kind.is_cloned()
+        && rng.chance(o.clone_panic_pct, 100)
+    {
+        panic = Some((PanicSite::Clone, rng.range(0, len.max(1) + 2) as u32));
     }
     if panic.is_none() && o.closure_panic_pct > 0 && rng.chance(o.closure_panic_pct, 100) {
         panic = Some((PanicSite::Closure, rng.range(0, len.max(1)) as u32));
